@@ -4,6 +4,8 @@ use crate::rules::{
     Context, FlawlessRule, RuleConfiguration, RuleConfigurationError, RuleMetadata, RuleProperties,
 };
 
+use super::remove_comments::RemoveCommentProcessor;
+use super::remove_spaces::RemoveWhitespacesProcessor;
 use super::verify_no_rule_properties;
 
 #[derive(Default)]
@@ -84,7 +86,15 @@ impl NodeProcessor for Processor {
             })
             .collect();
 
-        for variable in insert_variables.into_iter().rev() {
+        for mut variable in insert_variables.into_iter().rev() {
+            // the variable moves after tokens from later lines: the line feeds in its
+            // comments and whitespaces would now add lines to the statement
+            variable.clear_comments();
+            variable.clear_whitespaces();
+            if let Some(r#type) = variable.mutate_type() {
+                DefaultVisitor::visit_type(r#type, &mut RemoveCommentProcessor::default());
+                DefaultVisitor::visit_type(r#type, &mut RemoveWhitespacesProcessor::default());
+            }
             assignment.push_variable(variable);
         }
 
